@@ -31,7 +31,9 @@ pub struct Args {
 pub fn main() -> Result<()> {
     let args = Args::parse();
 
-    let input = fs::read_to_string(args.input)?;
+    // rustc normalizes CRLF to LF when it loads a source file; do the same, so that literals spanning
+    // several lines (raw strings in particular) are the ones the derive macro would see.
+    let input = fs::read_to_string(args.input)?.replace("\r\n", "\n");
     let mut output = codegen(input).context("failed to run rustfmt")?;
 
     if args.format {
